@@ -76,6 +76,9 @@ func (g *Gen) verifyFunction(fn *ssa.Function, c *Contract) (res *VCResult) {
 			g.assume("true", g.clauseEnv(env0, r))
 		}
 	}
+	if c != nil && !c.ModAll && !c.Assumed {
+		g.setupFrame(f, c, env0)
+	}
 	g.regionTerms = map[string]string{}
 	for _, kf := range g.regions {
 		e, err := parseContractExpr(kf.Region)
@@ -399,4 +402,50 @@ func posString(fset *token.FileSet, p token.Pos) string {
 		return ""
 	}
 	return fset.Position(p).String()
+}
+
+// setupFrame records which locations the function may modify (its modifies clauses, evaluated at entry).
+// Every heap write and every callee frame is then checked against it where it happens.
+func (g *Gen) setupFrame(f *Frame, c *Contract, env0 *Env) {
+	g.frameOn = true
+	g.frameAllowed = map[string][]string{}
+	for _, m := range c.Modifies {
+		for _, l := range g.modLocs(env0, m) {
+			if l.whole != "" {
+				if l.exceptRef == "" {
+					g.frameAllowed[l.whole] = append(g.frameAllowed[l.whole], "*")
+				} else {
+					g.frameAllowed[l.whole] = append(g.frameAllowed[l.whole], l.exceptRef)
+				}
+				continue
+			}
+			g.frameAllowed[l.loc.comp] = append(g.frameAllowed[l.loc.comp], l.loc.ref)
+		}
+	}
+	g.frameNow0 = g.now(f.entry)
+}
+
+// frameWrite: obligation that a write to comp at ref is within the frame.
+func (g *Gen) frameWrite(comp, ref string) {
+	if !g.frameOn || g.cur == nil || comp == nowComp || comp == "IT" {
+		return
+	}
+	conds := []string{fmt.Sprintf("(> %s %s)", ref, g.frameNow0)}
+	for _, a := range g.frameAllowed[comp] {
+		if a == "*" {
+			return
+		}
+		conds = append(conds, fmt.Sprintf("(= %s %s)", ref, a))
+	}
+	g.frameN++
+	g.oblige(fmt.Sprintf("frame#%d:%s", g.frameN, comp), "frame", g.cur.en, or(conds...),
+		"write to "+comp+" only at locations listed under modifies or at objects allocated by this call", token.NoPos)
+}
+
+func (g *Gen) frameHavocAll() {
+	if !g.frameOn || g.cur == nil {
+		return
+	}
+	g.frameN++
+	g.oblige(fmt.Sprintf("frame#%d:havoc", g.frameN), "frame", g.cur.en, "false", "a call with unknown effects is reachable: the frame cannot be established", token.NoPos)
 }
